@@ -152,6 +152,71 @@ def body_cdecay(sel: int) -> bool:
     return True
 
 
+# ---- several CDecay statements in one file, each with its own fate ------------------------------------------------------------------
+# (X, source, declarations, source lines); the names sort in an order unrelated to the order of the statements
+MULTI = [
+    ("B-", "B+", [], [("1.0", ["anti-D0", "pi+"], False, "PHSP", "")]),
+    ("D*-", "D*+", [], [("0.7", ["D0", "pi+"], True, "VSS", ""), ("0.3", ["D+", "gamma"], False, "VSP_PWAVE", "")]),
+    ("D-", "D+", [], [("0.5", ["K-", "pi+", "pi+"], False, "D_DALITZ", ""), ("0.5", ["K_S0", "e+", "nu_tau"], True, "ISGW2", "")]),
+    ("Myanti-D0", "MyD0", ["Alias MyD0 D0", "Alias Myanti-D0 anti-D0", "ChargeConj MyD0 Myanti-D0"], [("1.0", ["K-", "K+", "rho0"], False, "PHSP", "")]),
+    ("anti-B_s0", "B_s0", [], [("0.25", ["D*-", "e+"], False, "HQET2", "1.1 0.9"), ("0.75", ["phi", "phi"], False, "SVV_HELAMP", "1.0 0.0 1.0 0.0 1.0 0.0")]),
+]
+# fate of X: 0 not mentioned | 1 CDecay X, source present | 2 CDecay X, no source | 3 CDecay X + Decay X + source | 4 CDecay X + Decay X, no source
+N_FATES = 5
+R_MULTI = [N_FATES] * len(MULTI) + [3]
+N_MULTI = prod(R_MULTI)
+
+
+def _lines(lines, conj=False):
+    return [{"bf": float(bf), "fs": [pdg_or_decl_cc(d) if conj else d for d in ds], "model": ("PHOTOS " if ph else "") + mo,
+             "model_params": [float(x) for x in pa.split()] if pa else ""} for bf, ds, ph, mo, pa in lines]
+
+
+def pdg_or_decl_cc(n):
+    return {"MyD0": "Myanti-D0", "Myanti-D0": "MyD0"}.get(n) or PDG_CC[n]
+
+
+def body_cdecay_multi(sel: int) -> bool:
+    """each CDecay statement is decided on its own: conjugate of ITS source, nothing without a source, Decay X wins - whatever the
+    other CDecay statements of the file do and however the names sort"""
+    ds = digits(sel, R_MULTI)
+    fates, order = ds[:-1], ds[-1]
+    own_lines = [("1.0", ["gamma", "gamma"], False, "PHSP", "")]
+    decl, blocks, cds, exp = [], [], [], {}
+    for k, ((X, src, dcl, lines), fate) in enumerate(zip(MULTI, fates)):
+        if fate == 0:
+            continue
+        decl += dcl
+        cds.append(f"CDecay {X}")
+        if fate in (1, 3):
+            blocks.append(_block(src, lines))
+            exp[src] = _lines(lines)
+        if fate in (3, 4):
+            blocks.append(_block(X, own_lines))
+            exp[X] = _lines(own_lines)
+        elif fate == 1:
+            exp[X] = _lines(lines, conj=True)
+    if order == 0:
+        parts = decl + blocks + cds
+    elif order == 1:
+        parts = decl + list(reversed(cds)) + list(reversed(blocks))
+    else:
+        parts = decl + [x for pair in zip(blocks, cds) for x in pair] + blocks[len(cds):] + cds[len(blocks):]
+    text = "\n".join(parts) + "\n"
+    try:
+        p = parse(text)
+    except Exception as e:
+        return fail(f"{type(e).__name__}: {str(e)[:200]} for {text!r}")
+    names = p.list_decay_mother_names()
+    if sorted(names) != sorted(exp) or p.number_of_decays != len(exp):
+        return fail(f"mothers {sorted(names)} ({p.number_of_decays} tables), expected {sorted(exp)}; text {text!r}")
+    for m, want in exp.items():
+        got = details(p, m)
+        if got != want:
+            return fail(f"table of {m!r}: {got}, expected {want}; text {text!r}")
+    return True
+
+
 # ---- thorough: one daughter slot ranges over the whole EvtGen name table ------------------------------------------------------
 def _evtgen_names():
     from particle.converters import EvtGenName2PDGIDBiMap
